@@ -17,6 +17,7 @@ struct Keeper {
     explicit Keeper(tbb::task_arena& a, int burst_ = 4, unsigned pause_us_ = 50) : arena(a), burst(burst_), pause_us(pause_us_) {
         th = std::thread([this] {
             while (!stop.load(std::memory_order_relaxed)) {
+                suspend_gate();   // let the process go quiet while the watchdog decides whether it is stuck
                 // do not flood: keep at most a few hundred tasks outstanding
                 if (enq.load(std::memory_order_relaxed) - ran.load(std::memory_order_relaxed) < 256)
                     for (int i = 0; i < burst; i++) { enq.fetch_add(1, std::memory_order_relaxed); arena.enqueue([this] { spin_iters(300); ran.fetch_add(1, std::memory_order_release); }); }
